@@ -304,6 +304,26 @@ def check_functions(sc, ls):
                       "C06 function %s has an entry block that is neither an original entry nor a legal promotion" % fname)
 
 
+def _promotion_chain(sc, order, bid, target, fname):
+    """Blocks strictly between bid and target: all code of fname, no gap in front, wholly deleted without a proxy (the
+    modifications of one apply() run in address order, so each became the entry and handed it on); target itself is code of
+    fname without a gap in front."""
+    i, j = order.index(bid), order.index(target)
+    if j <= i:
+        return False
+    mods = sc.spec.get("mods", [])
+    for mid in order[i + 1:j]:
+        bs = sc.bspec[mid]
+        if bs["kind"] != "code" or bs.get("func") != fname or bs.get("gap"):
+            return False
+        whole = any(md and md["op"] == "delete" and md["blk"] == mid and md["at"] == 0 and md["to"] == len(bs["atoms"])
+                    and not md.get("proxy") for md in mods)
+        if not whole or any(md and md["blk"] == mid and md["op"] != "delete" for md in mods):
+            return False
+    tb = sc.bspec[target]
+    return tb["kind"] == "code" and tb.get("func") == fname and not tb.get("gap")
+
+
 def expected_entry_positions(sc, ls, fname):
     """-> (must, may): listing positions where function fname must / may have
     entry blocks (rule R8).  must: an original entry block that still has
@@ -336,6 +356,8 @@ def expected_entry_positions(sc, ls, fname):
                         pass  # retarget_to_proxy: the function entry becomes external, nothing is promoted
                     elif it.blk == nxt_bid and sc.bspec[nxt_bid]["kind"] == "code" and not sc.bspec[nxt_bid].get("gap"):
                         must.append(pos)
+                    elif it.blk in order and _promotion_chain(sc, order, bid, it.blk, fname):
+                        must.append(pos)  # every block in between was promoted in turn and then deleted as well
                     else:
                         may.append(pos)
                 break
